@@ -4,10 +4,11 @@ T4 == << <<0, 4096>>, <<1, 8192>>, <<1, 8448>>, <<2, 12288>> >>
 T5 == << <<0, 4096>>, <<1, 8192>>, <<1, 8448>>, <<2, 12288>>, <<7, 65280>> >>
 LE4 == {<<"set", k, u>> : k \in 0..3, u \in {<<>>, U1}} \cup {<<"clr", k>> : k \in 0..3} \cup {<<"reset", TRUE>>, <<"reset", FALSE>>, <<"cnt">>, <<"rdreg">>}
        \cup {<<"get", 1>>, <<"rdhist", 0>>, <<"rdhist", 1>>, <<"rdhist", 2>>, <<"wrhist", 0>>, <<"wrhist", 1>>, <<"wrid", TRUE>>, <<"wrid", FALSE>>, <<"wridbad">>}
-       \cup {<<"mode", m>> : m \in {2, 3, 4}}
+       \cup {<<"mode", m>> : m \in {1, 2, 3, 4}} \cup {<<"apireset", 2>>}
 LEQ == {<<"set", k, <<>>>> : k \in 0..3} \cup {<<"set", 1, U1>>} \cup {<<"clr", k>> : k \in 0..3} \cup {<<"reset", TRUE>>, <<"reset", FALSE>>, <<"cnt">>}
-       \cup {<<"rdhist", 1>>, <<"wrhist", 0>>, <<"wrhist", 1>>, <<"wrid", TRUE>>, <<"wrid", FALSE>>, <<"mode", 2>>, <<"mode", 4>>}
+       \cup {<<"rdhist", 1>>, <<"wrhist", 0>>, <<"wrhist", 1>>, <<"wrid", TRUE>>, <<"wrid", FALSE>>, <<"mode", 2>>, <<"mode", 4>>, <<"mode", 1>>, <<"apireset", 2>>}
 LE20 == {<<"set", k, <<>>>> : k \in 0..3} \cup {<<"clr", 1>>, <<"nmtreset", 130>>, <<"nmtreset", 129>>, <<"mode", 3>>, <<"mode", 4>>, <<"wrid", FALSE>>, <<"wrid", TRUE>>}
+        \cup {<<"mode", 1>>, <<"apireset", 2>>, <<"apireset", 1>>}        \* the application holds the node in INITIALISATION and resets it from there
 PE20 == << <<"nmtreset", 130>>, <<"rdreg">>, <<"cnt">>, <<"get", 0>>, <<"get", 1>>, <<"get", 2>>, <<"get", 3>>, <<"set", 1, <<>>>>, <<"rdreg">>, <<"cnt">> >>
 \* errors with identifiers above the number of error classes (8): a table of 12, letters on the identifiers 1, 8, 9 and 11
 T12 == << <<0, 4096>>, <<1, 8192>>, <<1, 8448>>, <<2, 12288>>, <<3, 16384>>, <<4, 20480>>, <<5, 24576>>, <<7, 65280>>, <<1, 8704>>, <<2, 12544>>, <<4, 20736>>, <<0, 4352>> >>
